@@ -219,7 +219,7 @@ func (w *world) Finished(e *sim.Env) bool {
 			f := w.futs[id]
 			if !f.cancelInv && f.count != 1 {
 				if w.mode == "c13" {
-					e.Violate("C13", "not_fired", "future %s (delay %v) never cancelled, started %d times by the end (waited %v past its due time)", f.id, f.d, f.count, time.Since(f.due))
+					e.Violate("C13", "not_fired", "future %s (delay %v) was never cancelled and callbacks return promptly, yet it started %d times by %v past its due time", f.id, f.d, f.count, time.Since(f.due))
 				} else {
 					e.Violate("C12", "collateral_or_lost", "future %s (delay %v) was never cancelled but started %d times by the end (%v past due)", f.id, f.d, f.count, time.Since(f.due))
 				}
